@@ -114,7 +114,7 @@ class _TypeLookup(DictLike):
             if cls not in self.map:
                 if member is None or id(member) != self.descriptor_id:
                     continue
-                self.map.setdefault(cls, member.initial_set)
+                self.map.setdefault(cls, dict(member.initial_set))
             yield self.map[cls]
             if member is not None and id(member) == self.descriptor_id:
                 break
@@ -128,7 +128,7 @@ class _TypeLookup(DictLike):
         if "properties" in self.base.__dict__:
             member = self.base.__dict__["properties"]
             if id(member) == self.descriptor_id:
-                return self.map.setdefault(self.base, member.initial_set)
+                return self.map.setdefault(self.base, dict(member.initial_set))
         return self.map.setdefault(self.base, {})
 
 
